@@ -60,12 +60,12 @@ def c12(c):
     quick = c.tier == 'quick'
     # 1. design: the concrete ring refines the FIFO (exhaustive), the writer over the FIFO delivers exactly
     if not _FAST:
-        r = c.tlc_exhaustive('Writer', 'Ring', 'ring_quick.cfg' if quick else 'ring_thorough.cfg', workers=8, timeout=1500)
+        r = c.tlc_exhaustive('Writer', 'Ring', 'ring_quick.cfg' if quick else 'ring_thorough.cfg', workers=4, timeout=1500)
         c.log('Ring: %d distinct / %d generated states' % (r['distinct'], r['states']))
-        r = c.tlc_exhaustive('Writer', 'Writer', 'writer_quick.cfg' if quick else 'writer_thorough.cfg', workers=8, timeout=2400)
+        r = c.tlc_exhaustive('Writer', 'Writer', 'writer_quick.cfg' if quick else 'writer_thorough.cfg', workers=4, timeout=2400)
         c.log('Writer: %d distinct / %d generated states, depth %d' % (r['distinct'], r['states'], r['depth']))
     if not quick and not _FAST:
-        r = c.tlc_exhaustive('Writer', 'Writer', 'writer_live.cfg', workers=8, timeout=2400)
+        r = c.tlc_exhaustive('Writer', 'Writer', 'writer_live.cfg', workers=4, timeout=2400)
         c.log('Writer liveness (FairSpec): %d distinct states' % r['distinct'])
     binp = c.go_build('writer')
     # 2. S: simulated operation sequences of the ring replayed into internal/queue
@@ -123,10 +123,10 @@ def c12(c):
 def c40(c):
     quick = c.tier == 'quick'
     if not _FAST:
-        r = c.tlc_exhaustive('Dissolve', 'Dissolve', 'quick.cfg' if quick else 'thorough.cfg', workers=8, timeout=1500)
+        r = c.tlc_exhaustive('Dissolve', 'Dissolve', 'quick.cfg' if quick else 'thorough.cfg', workers=4, timeout=1500)
         c.log('Dissolve safety: %d distinct / %d generated states' % (r['distinct'], r['states']))
         # liveness under fairness (no VIEW, no state constraint): Submitted ~> Succeeded \/ closed; workers exit after Close
-        r = c.tlc_exhaustive('Dissolve', 'Dissolve', 'live.cfg' if quick else 'live_thorough.cfg', workers=8, timeout=2400)
+        r = c.tlc_exhaustive('Dissolve', 'Dissolve', 'live.cfg' if quick else 'live_thorough.cfg', workers=4, timeout=2400)
         c.log('Dissolve liveness (FairSpec): %d distinct states' % r['distinct'])
     binp = c.go_build('writer')
     nruns = 1500 if quick else 12000
@@ -166,10 +166,10 @@ def c40(c):
 def c42(c):
     quick = c.tier == 'quick'
     if not _FAST:
-        r = c.tlc_exhaustive('Pools', 'Pools', 'quick.cfg' if quick else 'thorough.cfg', workers=8, timeout=1500)
+        r = c.tlc_exhaustive('Pools', 'Pools', 'quick.cfg' if quick else 'thorough.cfg', workers=4, timeout=1500)
         c.log('Pools (write/append/foreign/put): %d distinct / %d generated states' % (r['distinct'], r['states']))
         if not quick:
-            r = c.tlc_exhaustive('Pools', 'Pools', 'reslice_bs.cfg', workers=8, timeout=1500)
+            r = c.tlc_exhaustive('Pools', 'Pools', 'reslice_bs.cfg', workers=4, timeout=1500)
             c.log('Pools bytes+slices with reslicing: %d distinct states' % r['distinct'])
         # model-level finding (rule 1): with reslicing before Put the item-buffer model violates GetOK; whether the real
         # code does is decided below by the replay (scripts with Reslice)
